@@ -100,6 +100,11 @@ pub trait Property: Sync {
     fn run_decoded(&self, _decoded: &Value, _cfg: &RunCfg) -> Option<Verdict> {
         None
     }
+    /// coverage-guided campaigns run by the thorough tier: (cargo-fuzz target, runs, max_len).
+    /// Target `prop` drives this property's own decoder and oracle; the others are byte-level targets.
+    fn fuzz_targets(&self) -> Vec<(&'static str, u64, usize)> {
+        vec![]
+    }
     /// the decoded case as JSON (used to describe a case whose run panicked)
     fn describe(&self, _bytes: &[u8]) -> Option<Value> {
         None
